@@ -201,8 +201,15 @@ def run_shard(ctx):
         for q in range(rng.randint(1, 3)):
             g1.append(rng.choice(["ALTER TABLE %s ADD c%d varchar(10);" % (nm, q), "CREATE INDEX ix%d_%d ON %s (a);" % (j, q, nm),
                                   "ALTER TABLE %s ADD CONSTRAINT ck%d CHECK (a > %d);" % (nm, q, q), "CREATE UNIQUE INDEX ux%d_%d ON %s (b DESC);" % (j, q, nm)]))
-        g2 = [rng.choice(["DROP TABLE %s;" % nm, "CREATE TABLE IF NOT EXISTS %s (%s);" % (nm, cols), "CREATE TABLE %s (x int);" % nm])]
-        groups = [g1, g2]
+        g2 = [rng.choice(["DROP TABLE %s;" % nm, "CREATE TABLE IF NOT EXISTS %s (%s);" % (nm, cols), "CREATE TABLE %s (x int);" % nm,
+                          g1[0], g1[0]])]          # ... or the very same statement text again
+        if rng.random() < 0.3:
+            g1.append(g1[-1])                      # the same ALTER / CREATE INDEX text twice in a row
+        if rng.random() < 0.3 and g2[0] != g1[0]:
+            groups_tail = [[g1[0]]]                # CREATE t; ...; DROP t; CREATE t (same text as the first)
+        else:
+            groups_tail = []
+        groups = [g1, g2] + groups_tail
         if rng.random() < 0.5:
             groups.append(G.gen_group(rng, rng.choice(kinds), 7))
         inserts = {str(rng.randrange(len(g1) + 2)): [rng.choice(uns)[1]]} if rng.random() < 0.4 else {}
